@@ -46,7 +46,7 @@ def fields(c):
     f = arr_of(c["data"], c["den"])
     try:
         u = FS.unfold_fields(f, tuple(c["sym"]), c["ft"])
-    except (ValueError,) as e:
+    except (ValueError, TypeError) as e:
         return err(e)
     axes = tuple(a for a in range(3) if c["sym"][a] != 0)
     r = PS.restrict_to_kept_half(u, axes)
@@ -79,7 +79,8 @@ def make_detector(dk):
         return fdtdx.PoyntingFluxDetector(name="d", direction="+", keep_all_components=bool(dk["keep_all"]), reduce_volume=bool(dk["reduce"]),
                                           fixed_propagation_axis=int(dk["axis"]), dtype=jnp.float64, **ex)
     if t == "diffractive":
-        return fdtdx.DiffractiveDetector(name="d", frequencies=(5e14,), direction="+")
+        from fdtdx.objects.detectors.diffractive import DiffractiveDetector
+        return DiffractiveDetector(name="d", frequencies=(5e14,), direction="+")
     raise ValueError(t)
 
 
